@@ -311,10 +311,21 @@ func Main(args []string) {
 	obs.Cases = len(cases)
 	fmt.Fprintf(&sb, "Definition fcases : list fcase := %s.\n", cg.List(fcs))
 	fmt.Fprintf(&sb, "Definition ccases : list ccase := %s.\n", cg.List(ccs))
-	for _, d := range [][2]string{{"R_agree", "fcase_agree"}, {"R_c04", "fcase_c04"}, {"R_c05", "fcase_c05"}, {"R_c12", "fcase_c12"}} {
+	// only the lists of the property this run is for (plus the correspondence) are evaluated
+	want := map[string][][2]string{
+		"C04": {{"R_agree", "fcase_agree"}, {"R_c04", "fcase_c04"}},
+		"C05": {{"R_agree", "fcase_agree"}, {"R_c05", "fcase_c05"}},
+		"C12": {{"R_agree", "fcase_agree"}, {"R_c12", "fcase_c12"}},
+	}[prop]
+	if want == nil || o.Extra["all"] != "" {
+		want = [][2]string{{"R_agree", "fcase_agree"}, {"R_c04", "fcase_c04"}, {"R_c05", "fcase_c05"}, {"R_c12", "fcase_c12"}}
+	}
+	for _, d := range want {
 		fmt.Fprintf(&sb, "Definition %s := Eval vm_compute in failures %s fcases.\nPrint %s.\n", d[0], d[1], d[0])
 	}
-	sb.WriteString("Definition R_c12c := Eval vm_compute in failures ccase_commute ccases.\nPrint R_c12c.\n")
+	if prop == "C12" || o.Extra["all"] != "" {
+		sb.WriteString("Definition R_c12c := Eval vm_compute in failures ccase_commute ccases.\nPrint R_c12c.\n")
+	}
 	common.WriteFile(o.Out, "cases.v", sb.String())
 	idx := map[string][]int{"R_agree": fIdx, "R_c04": fIdx, "R_c05": fIdx, "R_c12": fIdx, "R_c12c": cIdx}
 	b, _ := json.Marshal(idx)
